@@ -165,6 +165,9 @@ def call_order(ck):
     def mk():
         log.clear()
         c = harness.partial(CM.CphotAng)
+        # the attributes the real constructor sets (working type, constants, wavelength tables) are those of a real kernel object
+        for k_, v_ in vars(_real_kernel()).items():
+            c.__dict__.setdefault(k_, v_)
         arrs = [ev.sym(n) for n in names]
         for a, n in zip(arrs, names):
             a.origin = n
@@ -211,7 +214,22 @@ def batch(rng, n):
     beta = np.radians(rng.uniform(0.2, 41.0, n))
     alt = rng.uniform(0.0, 19.0, n)
     E = 10 ** rng.uniform(-2, 2, n)
+    if n >= 8:
+        # showers of every energy decade the Hillas grid distinguishes sit in one batch (sub-TeV next to EeV), in no particular angular order
+        E[:8] = [1e-7, 1.0, 1e-6, 3e-6, 1e3, 1e-5, 1e4, 3e-2]
+        beta[:3] = np.radians([10.0, 20.0, 5.0])
     return beta, alt, E, rng.uniform(-1, 1, n), rng.uniform(-3, 3, n)
+
+
+_RK = {}
+
+
+def _real_kernel():
+    if "k" not in _RK:
+        from nuspacesim.simulation.eas_optical.cphotang import CphotAng
+
+        _RK["k"] = CphotAng(525.0)
+    return _RK["k"]
 
 
 def native_first(ck, big=False, failing=False):
